@@ -174,6 +174,36 @@ pub fn eval_case(case: &J) -> J {
         Ok(x) => x,
         Err(e) => return json!({"id": id, "harness_error": e}),
     };
+    let api = case.get("api").and_then(|a| a.as_bool()).unwrap_or(false);
+    if api {
+        // the public entry points a user calls: Program::eval_version* + EvalResult accessors
+        let r = guarded(move || {
+            let program = uplc::ast::Program {
+                version: (1, 1, 0),
+                term,
+            };
+            let res = match pv {
+                Some(pv) => program.eval_version_with_protocol(budget, &lang, pv),
+                None => program.eval_version(budget, &lang),
+            };
+            let cost = res.cost();
+            let logs = res.logs();
+            let failed = res.failed(false, &lang);
+            json!({
+                "out": outcome_json(&res.result),
+                "cost": {"cpu": cost.cpu, "mem": cost.mem},
+                "logs": logs,
+                "failed": failed,
+            })
+        });
+        return match r {
+            Ok(mut j) => {
+                j["id"] = id;
+                j
+            }
+            Err(msg) => json!({"id": id, "out": {"o":"panic","msg":msg}}),
+        };
+    }
     let r = guarded(move || {
         let out = run_term(term, lang, pv, costs.as_deref(), budget, slippage);
         json!({
